@@ -216,7 +216,7 @@ LoadReturn ==
 Next == (\E t \in DOMAIN ts : Step(t)) \/ LoadReturn \/ (mon.done /\ UNCHANGED vars)
 
 Spec == Init /\ [][Next]_vars
-        /\ \A t \in {"p1", "p2", "p3", "p4"} : WF_vars(t \in DOMAIN ts /\ Step(t))
+        /\ \A t \in {"p0", "p1", "p2", "p3", "p4"} : WF_vars(t \in DOMAIN ts /\ Step(t))
         /\ WF_vars(LoadReturn)
 
 NoViolation == mon.viol = {}
